@@ -1,6 +1,6 @@
 (* C06 — property theorems (statements only).  Owner: builder-parse. *)
 From Coq Require Import List NArith Bool Arith.
-From DV Require Import C06.Model C06.Lr C06.Proofs C06.Fuel C06.StrProofs C06.TablesProofs.
+From DV Require Import C06.Model C06.Lr C06.Proofs C06.Fuel C06.StrProofs C06.LayoutProofs C06.TablesProofs.
 Import ListNotations.
 
 (* the committed LALR tables (regenerated from feel-parser/src/lalr.rs on this run) give, on every ordered pair of
@@ -61,6 +61,18 @@ Example C06_nonvacuous :
   = [TLp; TAtom 1; TOp Add; TOp Sub; TOp Sub; TAtom 3; TRp; TOp Mul; TLp; TAtom 5; TBetween; TAtom 7; TOp And; TAtom 9; TBand; TAtom 11; TRp].
 Proof. vm_compute. reflexivity. Qed.
 Print Assumptions C06_nonvacuous.
+
+(* layouts: any sequence of white space characters, block comments whose body does not contain star-slash (whatever else it contains:
+   runs of stars before the terminator, slashes, openers of comments, quotes, line breaks) and line comments closed by a line feed is
+   skipped entirely by the model of read_input / consume_whitespace / consume_comment: the lexer resumes exactly at the next token *)
+Theorem C06_layout_skipped : forall ps f rest, forallb piece_ok ps = true -> token_start rest = true -> comments ps <= f ->
+  skip_layout f (render_layout ps ++ rest) = rest.
+Proof. exact layout_skipped. Qed.
+Print Assumptions C06_layout_skipped.
+
+Theorem C06_layout_orig_refuted : skip_layout 2 two_comments_then_1 = [49%N] /\ skip_layout_orig two_comments_then_1 <> [49%N].
+Proof. exact layout_orig_refuted_witness. Qed.
+Print Assumptions C06_layout_orig_refuted.
 
 (* string literals: every string of Unicode scalar values, written with any choice of spelling per character (raw, short escape,
    \uXXXX, \UXXXXXX, surrogate pair; upper or lower case hexadecimal digits), is decoded back to itself by the model of
